@@ -171,6 +171,33 @@ def pt_sweep(K, body, h):
     return x, probs
 
 
+def pt_search(K, fx, x):
+    """the pass_through sweep written as a search on path fx:
+         if let Some(i) = pass_through_keys.iter().(r)position(|k2| *k2 == x) { emit Released(x); PT.remove(i) }
+    (pass_through_keys holds no key twice, C19-I1, so lifting the one found lifts x).  -> event index or None"""
+    for i, ev in enumerate(fx.path.events):
+        if ev.kind != "guard" or not (isinstance(ev.a, tuple) and ev.a[0] == "variantof"):
+            continue
+        c = ev.a[1]
+        if not (isinstance(c, tuple) and c[0] == "call" and mir.method_name(c[1]) in ("position", "rposition") and len(c[2]) == 2):
+            continue
+        it = c[2][0]
+        if not (isinstance(it, tuple) and it[0] == "iter" and list_of(it[1]) == "PT"):
+            continue
+        probe = T("index", mir.strip(it[1]), T("field", T("variant", c, "Some"), "0"))
+        found = K.resolve_pos(probe)
+        if found is probe or not fx.same_key(found, x):
+            continue
+        if ev.b == "Some":
+            em = [z for z in fx.effects if z.kind == "EMIT" and z.aux == "Released" and fx.same_key(z.key, x)]
+            de = [z for z in fx.effects if z.kind == "DEL" and z.lst == "PT" and fx.same_key(z.key, x)]
+            if len(em) == 1 and len(de) == 1:
+                return i
+        else:
+            return i   # not there: nothing to lift
+    return None
+
+
 def am_sweep(K, body, h):
     """is loop h 'for every index i of AM: if fails_when_released(AM[i].from, x) { events += remove_mapping(state, i, x) }',
     leaving only by exhaustion?  -> (x term, problems)"""
